@@ -226,11 +226,22 @@ func (o *Opts) Plugins() *Node {
 
 func (o *Opts) pluginConfig() *Node {
 	t := o.T
-	switch t.Draw(6, "plugin:cfgkind") {
+	switch t.Draw(8, "plugin:cfgkind") {
 	case 0:
 		return Null()
 	case 1:
 		return Map() // empty config
+	case 6:
+		// a bare scalar config (legal: the config is whatever follows the source)
+		return Str(o.str("plugin.cfg.val"))
+	case 7:
+		// a list config
+		n := 1 + t.Draw(3, "plugin:cfglistn")
+		s := &Node{Kind: KSeq, Seq: []*Node{}}
+		for i := 0; i < n; i++ {
+			s.Seq = append(s.Seq, o.AnyValue("plugin.cfg", 2))
+		}
+		return s
 	}
 	n := 1 + t.Draw(4, "plugin:cfgn")
 	if o.BigMaps && t.Draw(10, "plugin:cfgbig") == 9 {
